@@ -32,35 +32,10 @@ PY
 )
 NMISS=${MISSING%% *}
 if [ "$NMISS" != "0" ]; then
-  # time / signal sensitive tests flake (or a worker crashes) under parallel load: re-run what is missing, serially
-  /venv/bin/python - > seed/missing_ids.txt <<PY
-import json, xml.etree.ElementTree as ET
-base = set(json.load(open("/root/.vp/BASELINE.json"))["stable_pass"])
-if "$ZMQ":
-    base = {b for b in base if ".test_zmq::" not in b}
-passed = set()
-for tc in ET.parse("seed/junit.xml").getroot().iter("testcase"):
-    if not any(ch.tag in ("failure", "error", "skipped") for ch in tc):
-        c = tc.get('classname') or ''; c = c if c.startswith('src.') else 'src.' + c
-        passed.add(f"{c}::{tc.get('name')}")
-for m in sorted(base - passed):
-    mod, name = m.split("::", 1)
-    print(mod.replace(".", "/") + ".py::" + name)
-PY
-  xargs -a seed/missing_ids.txt -d '\n' timeout 2400 /venv/bin/python -m pytest -q -p no:cacheprovider --timeout=300 --junitxml=seed/junit2.xml > seed/suite2.log 2>&1
-  MISSING=$(/venv/bin/python - <<PY
-import xml.etree.ElementTree as ET
-want = [l.strip() for l in open("seed/missing_ids.txt") if l.strip()]
-passed = set()
-for tc in ET.parse("seed/junit2.xml").getroot().iter("testcase"):
-    if not any(ch.tag in ("failure", "error", "skipped") for ch in tc):
-        c = tc.get('classname') or ''; c = c if c.startswith('src.') else 'src.' + c
-        passed.add(c.replace(".", "/") + ".py::" + tc.get('name'))
-missing = [w for w in want if w not in passed]
-print(len(missing), ";".join(missing[:5]))
-PY
-)
-  SUITE="$SUITE ; serial re-run of missing: $(tail -1 seed/suite2.log)"
+  # time / signal sensitive tests flake (or a worker crashes) under parallel load: re-run what is missing serially, one process per file
+  ZFLAG=""; [ -n "$ZMQ" ] && ZFLAG="--zmq-deselected"
+  MISSING=$(/verif/tools/rerun_missing.py $WT seed/junit.xml $ZFLAG)
+  SUITE="$SUITE ; serial per-file re-run of what was missing: still missing $MISSING"
 fi
 echo "CONFIRM $ID: demo_with_rc=$RC_WITH demo_without_rc=$RC_WITHOUT suite=[$SUITE] baseline_missing=[$MISSING]"
 NMISS=${MISSING%% *}
